@@ -226,6 +226,83 @@ def r12l(F):
 
 RULES.append(('12.l', 'every hand-written struct writer serializes every field of its struct (reviewed exceptions)', r12l))
 
+# fields a hand-written reader fills with a constant and never patches by field afterwards (reviewed; why each may come back as a constant)
+_SIG = 'transient signing / closing-negotiation state, dropped by the disconnect a restart implies'
+_READ_CONST_OK = {
+	('MppPart::MppPart', 'timer_ticks'): 'timeout counter restarts at zero',
+	('OnchainTxHandler::OnchainTxHandler', 'pending_claim_events'): 'regenerated by rebroadcast after load',
+	('Event::PaymentFailed', 'payment_hash'): 'legacy encoding without the hash',
+	('HTLCLocator::HTLCLocator', 'htlc_id'): 'legacy encoding without the id',
+	('InterceptNextHop::FakeScid', 'requested_next_hop_scid'): 'placeholder overwritten from the TLV that follows',
+	('FundedChannel::FundedChannel', 'quiescent_action'): _SIG,
+	('HTLCUpdateAwaitingACK::ClaimHTLC', 'attribution_data'): 'positional legacy section; patched from the attribution TLV vector through a binding',
+	('InboundHTLCRemovalReason::Fulfill', 'attribution_data'): 'positional legacy section; patched from the attribution TLV vector through a binding',
+	('OutboundHTLCOutcome::Success', 'attribution_data'): 'positional legacy section; patched from the attribution TLV vector through a binding',
+	('OnionErrorPacket::OnionErrorPacket', 'attribution_data'): 'positional legacy section; patched from the attribution TLV vector through a binding',
+	('UpdateFailHTLC::UpdateFailHTLC', 'attribution_data'): 'HTLCFailureMsg legacy encoding carries no attribution data',
+	('OutboundHTLCOutput::OutboundHTLCOutput', 'send_timestamp'): 'hold-time measurement only; not meaningful across restarts',
+	('NegotiatedCandidate::NegotiatedCandidate', 'contribution'): 'legacy candidate list (TLV without contributions)',
+	('AsyncReceiveOfferCache::AsyncReceiveOfferCache', 'offer_paths_request_attempts'): 'retry counter restarts at zero',
+	('ChannelInfo::ChannelInfo', 'node_one_counter'): 'runtime index, assigned when the graph is rebuilt',
+	('ChannelInfo::ChannelInfo', 'node_two_counter'): 'runtime index',
+	('NodeInfo::NodeInfo', 'node_counter'): 'runtime index',
+	('NetworkGraph::NetworkGraph', 'pending_checks'): 'in-flight UTXO lookups do not survive a restart',
+	('NetworkUpdate::ChannelFailure', 'is_permanent'): 'placeholder overwritten from the TLV that follows',
+}
+for _f in ('closing_fee_limits', 'closing_signed_in_flight', 'expecting_peer_commitment_signed', 'funding_locked_txid_sent_in_reestablish', 'inbound_handshake_limits_override',
+		'last_received_closing_sig', 'last_sent_closing_fee', 'pending_counterparty_closing_signed', 'prev_config', 'sent_message_awaiting_response', 'signer_pending_channel_ready',
+		'signer_pending_closing', 'signer_pending_commitment_update', 'signer_pending_funding', 'signer_pending_revoke_and_ack', 'signer_pending_stale_state_verification', 'workaround_lnd_bug_4006'):
+	_READ_CONST_OK[('ChannelContext::ChannelContext', _f)] = _SIG
+
+def r12m(F):
+	"""the reader side of 12.l: a hand-written reader that builds a struct with a field set to a constant (false / 0 / None / new()) and never
+	stores to that field afterwards returns that constant whatever was written - legitimate only for the reviewed fields (this is exactly how
+	ChannelConfig::accept_underpaying_htlcs was lost, section 10)"""
+	import re as _re2
+	out = []
+	rows = set()
+	nread = 0
+	for name, r in F.fns.items():
+		mm = _re2.match(r'^<(.*) as lightning::util::ser::(Readable|ReadableArgs|LengthReadable|MaybeReadable)>::(read|read_from_fixed_length_buffer)$', name)
+		if not mm or 'ser_macros' in r['file'] or not r['file'].startswith('lightning'):
+			continue
+		nread += 1
+		fam = F.family(name)
+		written = set()
+		fus = []
+		for n in fam:
+			try:
+				fu = F.func(n)
+			except AnchorMissing:
+				continue
+			fus.append(fu)
+			for bi, si, st in fu.stmts():
+				fl = [e for e in st[1][1:] if isinstance(e, str) and e.startswith('.')]
+				if fl:
+					written.add(fl[-1][1:].split('#')[0])
+		for fu in fus:
+			ex = None
+			for bi, si, st in fu.stmts():
+				rv = st[2]
+				if rv[0] != 'agg' or rv[1] != 'adt' or not rv[5] or not norm(rv[2]).startswith('lightning') or any(str(x).isdigit() for x in rv[5]):
+					continue
+				ex = ex or Expr(fu, max_depth=6)
+				for nm, o in zip(rv[5], rv[4]):
+					if nm in written:
+						continue
+					e = ex.of_operand(o)
+					es = expr_str(e)
+					if e[0] == 'const' or _re2.match(r'^(Option::None\{\}|default\(\)|new\(\)|0|false|true)$', es) or (e[0] == 'call' and ((e[1] or '').endswith('::default') or (e[1] or '').endswith('::new')) and not e[2]):
+						rows.add((norm(rv[2]).rsplit('::', 1)[-1] + '::' + str(rv[3]), nm, es[:30], fu.name, fu.line_of(bi)))
+	bad = [x for x in rows if (x[0], x[1]) not in _READ_CONST_OK]
+	for adt, nm, es, fn, line in sorted(bad):
+		out.append(Result('12.m', False, 'read-as-constant:%s.%s' % (adt, nm), 'the hand-written reader %s sets %s.%s to the constant %s and never stores to it afterwards: whatever was written, it comes back as %s (not a reviewed transient field)' % (fn.split(' as ')[0].strip('<')[-60:], adt, nm, es, es), 1, where=F.where(fn, line)))
+	ok = nread >= 150
+	out.append(Result('12.m', ok, ('ok:' if ok else 'floor:') + 'hand-written-readers', '%d hand-written readers examined; %d constant-filled fields, %d of them reviewed' % (nread, len(rows), len(rows) - len(bad)), nread))
+	return out
+
+RULES.append(('12.m', 'no hand-written reader returns a constant for a persisted field (reviewed transient fields aside)', r12m))
+
 def r12g(F):
 	"""the serialized channel is the channel as it will be after the disconnect a restart implies: the writer drops
 	peer-announced-but-uncommitted inbound HTLCs exactly as remove_uncommitted_htlcs_and_mark_paused does, and adjusts
